@@ -1,4 +1,5 @@
 # round-trip / canonical-form predicates on the implementation (shared by C01 and C05)
+import re
 from harness import sweep
 
 
@@ -61,6 +62,65 @@ def roundtrip_failures(cls, buf):
         yield 'compose-not-stable', 'composing the re-parsed object fails (%s)' % type(e).__name__
 
 
+IMF_DATE = re.compile(rb'(Mon|Tue|Wed|Thu|Fri|Sat|Sun), \d{2} (Jan|Feb|Mar|Apr|May|Jun|Jul|Aug|Sep|Oct|Nov|Dec) [12]\d{3} \d{2}:\d{2}:\d{2} GMT')
+DATE_CLASSES = ('FieldValueDateTime', 'HttpHeaderFieldValueDate', 'HttpHeaderFieldValueExpires', 'HttpHeaderFieldValueLastModified')
+COOKIE_CLASSES = ('HttpHeaderFieldValueSetCookie', 'HttpHeaderFieldValueSetCookieParams', 'HttpHeaderFieldValueComponentExpires')
+
+
+def shape(name, buf):
+    """A discriminator of the input's form for the families whose known findings concern one form only, so that the
+    listed finding (e.g. dates that are not in the preferred IMF-fixdate form) does not hide a defect on the other form."""
+    short = name.rsplit('.', 1)[1]
+    if short in DATE_CLASSES:
+        return 'imf-date' if IMF_DATE.fullmatch(bytes(buf)) else 'other-date'
+    if short in COOKIE_CLASSES:
+        m = re.search(rb'(?i)expires=([^;]*)', bytes(buf))
+        if m is None:
+            return 'no-date'
+        return 'imf-date' if IMF_DATE.fullmatch(m.group(1).strip()) else 'other-date'
+    return ''
+
+
+def finding_key(fam, name, pred, kind, buf):
+    sh = shape(name, buf)
+    return '%s/%s/%s%s' % (fam, pred, kind, '/' + sh if sh else '')
+
+
+def imf_dates(rng, n):
+    """Well-formed IMF-fixdate values around the places where calendars disagree: the days around New Year (ISO week
+    years), leap days, month ends, midnight and the last second, the epoch, 2038."""
+    import datetime
+    out = []
+    years = [1970, 1971, 1999, 2000, 2019, 2020, 2021, 2024, 2025, 2026, 2032, 2038, 2100, 2999]
+    for _ in range(n):
+        y = rng.choice(years + [rng.randint(1000, 2999)])
+        k = rng.random()
+        if k < 0.4:
+            d = datetime.datetime(y, 12, 28) + datetime.timedelta(days=rng.randint(0, 7))
+        elif k < 0.55:
+            d = datetime.datetime(y, 2, 27) + datetime.timedelta(days=rng.randint(0, 3))
+        else:
+            d = datetime.datetime(y, 1, 1) + datetime.timedelta(days=rng.randint(0, 364))
+        d = d.replace(hour=rng.choice([0, 12, 23, rng.randrange(24)]), minute=rng.choice([0, 59, rng.randrange(60)]), second=rng.choice([0, 59, rng.randrange(60)]))
+        out.append(('%s, %02d %s %04d %02d:%02d:%02d GMT' % (('Mon', 'Tue', 'Wed', 'Thu', 'Fri', 'Sat', 'Sun')[d.weekday()], d.day,
+                    ('Jan', 'Feb', 'Mar', 'Apr', 'May', 'Jun', 'Jul', 'Aug', 'Sep', 'Oct', 'Nov', 'Dec')[d.month - 1], d.year, d.hour, d.minute, d.second)).encode('ascii'))
+    return out
+
+
+def extra_vectors(name, rng, n=6):
+    """Generated, well-formed inputs for value classes whose repository vectors are a single date."""
+    short = name.rsplit('.', 1)[1]
+    if short in DATE_CLASSES:
+        return imf_dates(rng, n)
+    if short == 'HttpHeaderFieldValueComponentExpires':
+        return [b'expires=' + d for d in imf_dates(rng, n)]
+    if short == 'HttpHeaderFieldValueSetCookieParams':
+        return [b'expires=' + d + b'; max-age=1; Path=/' for d in imf_dates(rng, n)]
+    if short == 'HttpHeaderFieldValueSetCookie':
+        return [b'sid=31d4; expires=' + d + b'; Secure' for d in imf_dates(rng, n)]
+    return []
+
+
 def class_sweep(chk, rng, per_vector):
     vectors = sweep.library_vectors()
     evals = 0
@@ -73,4 +133,8 @@ def class_sweep(chk, rng, per_vector):
                 evals += 1
                 for pred, detail in roundtrip_failures(cls, b):
                     yield cls, name, b, pred, detail
+        for b in extra_vectors(name, rng):
+            evals += 1
+            for pred, detail in roundtrip_failures(cls, b):
+                yield cls, name, b, pred, detail
     chk.coverage['class_sweep'] = {'classes': len(vectors), 'buffers': evals}
